@@ -25,6 +25,10 @@ def collect(prop):
             covers.append(ent["covers"])
         if ent.get("engine_info"):
             infos.append(ent["engine_info"])
+    only = os.environ.get("VERIF_ONLY_ENGINES")   # development aid: comma-separated engine-name prefixes
+    if only:
+        pre = tuple(x.strip() for x in only.split(",") if x.strip())
+        engines = [e for e in engines if e.name.startswith(pre)]
     return engines, witness, assumptions, covers, infos
 
 
